@@ -1,5 +1,5 @@
 """Property-specific side engines, witness search (decoration only) and replay."""
-import json, os, subprocess, sys
+import re, json, os, subprocess, sys
 
 from . import gen
 
@@ -19,8 +19,71 @@ def assumptions(pid):
     return list(ASSUME["_all"]) + ASSUME.get(pid, [])
 
 
+FRAME_PATTERNS = [r"\bMutex\b", r"\bRwLock\b", r"\bRefCell\b", r"\bCell\s*<", r"\bUnsafeCell\b", r"\bAtomic[A-Z]\w*", r"\bOnceCell\b",
+                  r"\bOnceLock\b", r"\bLazyLock\b", r"\bLazyCell\b", r"\blazy_static!", r"\bthread_local!", r"\bstatic\s+mut\b", r"\bCondvar\b",
+                  r"\bmpsc\b", r"\bunsafe\b"]
+FRAME_FILES = ["src/lang/mod.rs", "src/lang/en/mod.rs", "src/lang/fr/mod.rs", "src/lang/es/mod.rs", "src/lang/pt/mod.rs", "src/lang/it/mod.rs",
+               "src/lang/de/mod.rs", "src/lang/nl/mod.rs", "src/tokenizer.rs", "src/word_to_digit.rs", "src/digit_string.rs", "src/lib.rs"]
+
+
+def strip_noncode(text):
+    """drop comments, string literals and the #[cfg(test)] module (frame scan looks at code only)"""
+    i = text.find("#[cfg(test)]")
+    if i >= 0:
+        text = text[:i]
+    text = re.sub(r"//[^\n]*", "", text)
+    text = re.sub(r"/\*.*?\*/", "", text, flags=re.S)
+    text = re.sub(r'"(?:\\.|[^"\\])*"', '""', text)
+    return text
+
+
 def side_checks(pid, tier, seed):
-    return {"obligations": [], "cmd": "", "trusted": [], "engine": "", "bounded": []}
+    out = {"obligations": [], "cmd": "", "trusted": [], "engine": "", "bounded": []}
+    if pid != "C14":
+        return out
+    # (1) frame condition, syntactic: the code on the call path owns no interior-mutable / global state and has no unsafe block
+    for rel in FRAME_FILES:
+        path = os.path.join(gen.REPO, rel)
+        oid = f"frame::{rel}::no-interior-mutability"
+        o = {"id": oid, "fn": rel, "kind": "frame", "props": ["C14"], "unit": "frame", "src": rel,
+             "text": "no Mutex/RwLock/RefCell/Cell/atomics/once-cells/lazy statics/static mut/thread_local/unsafe in non-test code", "status": "discharged"}
+        if not os.path.exists(path):
+            o["status"] = "undecided"
+            o["diag"] = [{"msg": "file not found (lost anchor)"}]
+        else:
+            code = strip_noncode(open(path, encoding="utf-8").read())
+            hits = []
+            for k, line in enumerate(code.split("\n")):
+                for pat in FRAME_PATTERNS:
+                    if re.search(pat, line):
+                        hits.append({"msg": f"{rel}:{k + 1}: `{line.strip()[:120]}` matches {pat}", "rendered": f"{rel}:{k + 1}: {line.strip()[:160]}"})
+            if hits:
+                o["status"] = "failed"
+                o["diag"] = hits[:10]
+        out["obligations"].append(o)
+    # (2) Send + Sync, decided by rustc's trait solver on static assertions against the real crate
+    sdir = os.path.join(VERIF, "sendsync")
+    env = dict(os.environ, CARGO_TARGET_DIR=WTARGET, CARGO_NET_OFFLINE="true")
+    try:
+        import shutil
+        shutil.copy(os.path.join(gen.REPO, "Cargo.lock"), os.path.join(sdir, "Cargo.lock"))
+    except Exception:
+        pass
+    p = subprocess.run(["cargo", "build", "--offline", "--message-format=short"], cwd=sdir, env=env, capture_output=True, text=True)
+    o = {"id": "rustc::sendsync::8-static-assertions", "fn": "assert_send_sync", "kind": "trait-bound", "props": ["C14"], "unit": "sendsync",
+         "src": "sendsync/src/main.rs", "text": "English, French, German, Italian, Spanish, Dutch, Portuguese, Language: Send + Sync", "status": "discharged"}
+    if p.returncode != 0:
+        if "E0277" in p.stderr:
+            o["status"] = "failed"
+            o["diag"] = [{"msg": l, "rendered": l} for l in p.stderr.split("\n") if "E0277" in l or "cannot be" in l][:8]
+        else:
+            o["status"] = "undecided"
+            o["diag"] = [{"msg": p.stderr[-600:]}]
+    out["obligations"].append(o)
+    out["cmd"] = "cargo build --offline (in /verif/sendsync, against /repo)"
+    out["engine"] = "rustc trait solver (Send + Sync static assertions) + syntactic frame scan"
+    out["trusted"] = ["rustc's auto-trait inference for Send/Sync", "frame scan is syntactic: it sees the files listed in FRAME_FILES, not dependencies (daachorse, phf, bitflags)"]
+    return out
 
 
 WTARGET = os.path.join(VERIF, "build", "witness-target")
